@@ -875,6 +875,8 @@ class Prims:
             elt = self.eval1(ex, node.elt, s2)
             if is_sym(elt):
                 return SSeq(it.length, lambda i, elt=elt, k=k: z3.substitute(elt, (k, i)), kind="list", elem_sort=elt.sort())
+            if isinstance(elt, int) and not isinstance(elt, bool):
+                return SSeq(it.length, lambda i, elt=elt: z3.IntVal(elt), kind="list", elem_sort=I)  # a constant per member
             return Opaque("list-of-objects", length=it.length)
         if isinstance(it, Opaque):
             return Opaque("list-of-objects")
